@@ -63,6 +63,49 @@ def scores_like(T, name, S="§S"):
                {S: T._coords[S], "mode": LCoord("mode", CoordId("modes"), k)})
 
 
+def snapshot(p):
+    """{attribute path: value key} of the preprocessor and every transformer below it (frame conditions)"""
+    import z3
+    from xeofs.preprocessing.list_processor import GenericListTransformer
+    from xeofs.preprocessing.transformer import Transformer
+    from ..sym.core import PNum
+    out = {}
+
+    def key(v):
+        if type(v) is LDA:
+            return ("LDA", repr(v.val), tuple(v.dims), tuple((d, repr(c.cid.key)) for d, c in sorted(v._coords.items())))
+        if type(v) is LCoord:
+            return ("LCoord", repr(v.cid.key))
+        if isinstance(v, dict):
+            return ("dict", tuple((str(k), key(x)) for k, x in v.items()))
+        if isinstance(v, (list, tuple)):
+            return (type(v).__name__, tuple(key(x) for x in v))
+        if type(v) is PNum:
+            return ("PNum", str(z3.simplify(v.z)))
+        if isinstance(v, (str, int, float, bool, type(None))):
+            return v
+        try:
+            import xarray as xr
+            if isinstance(v, xr.DataArray):
+                return ("DataArray", v.name, tuple(v.dims))
+        except Exception:  # noqa: BLE001
+            pass
+        return ("obj", type(v).__name__)
+
+    def walk(obj, path):
+        for a, v in sorted(vars(obj).items()):
+            if isinstance(v, GenericListTransformer):
+                out[f"{path}.{a}.len"] = len(v.transformers)
+                for i, t in enumerate(v.transformers):
+                    walk(t, f"{path}.{a}[{i}]")
+            elif isinstance(v, Transformer):
+                walk(v, f"{path}.{a}")
+            else:
+                out[f"{path}.{a}"] = key(v)
+    walk(p, "preprocessor")
+    return out
+
+
 def trace_chain(check_nans=True, lazy=False, compute=True, newdata=None, sample=("time",), feature=("lat", "lon"), order=None,
                 with_center=True, with_std=False, multiindex=(), maxpaths=96, refit=False):
     S, F = "§S", "§F"
@@ -72,12 +115,13 @@ def trace_chain(check_nans=True, lazy=False, compute=True, newdata=None, sample=
         X = mk_input("X", sample, feature, lazy=lazy, order=order, multiindex=multiindex)
         c = ctx()
         X2 = p.fit_transform(X, tuple(sample))
-        out = {"X": X, "fit2D": X2, "events_fit": list(c.events), "p": p}
+        out = {"X": X, "fit2D": X2, "events_fit": list(c.events), "p": p, "state_fit": snapshot(p)}
         c.events.clear()
         Xn = newdata() if newdata else mk_input("Xnew", sample, feature, lazy=lazy, order=order, multiindex=multiindex)
         out["Xnew"] = Xn
         T = p.transform(Xn)
         out["new2D"] = T
+        out["state_transform"] = snapshot(p)
         out["events_transform"] = list(c.events)
         c.events.clear()
         out["unseen"] = p.inverse_transform_scores_unseen(scores_like(T, "S_new"))
@@ -88,6 +132,7 @@ def trace_chain(check_nans=True, lazy=False, compute=True, newdata=None, sample=
         out["comps"] = p.inverse_transform_components(comps)
         out["events_inverse"] = list(c.events)
         out["ntransformers"] = len(p.scaler.transformers)
+        out["state_end"] = snapshot(p)
         return out
 
     with Patched():
